@@ -8,14 +8,14 @@ EXPLANATION = ('Decided for all inputs: (D1) Date/DateTime::from_ymd(hms) return
                'date_to_days / year_doy_to_days reach Ok only past validate_date / validate_doy, the month match and the day-in-month guard, whose 18 '
                'OutOfRange sites are guard/message consistent (O1/O2); (D3) days_to_date is total on all 2^32 day numbers with month in [1,12], day in '
                '[1,31], year != 0, |year| <= 5_880_993 and date_to_days / year_doy_to_days are total on all argument triples, including the i32 edge '
-               'arithmetic at MIN_DATE / MAX_DATE (div/mod linearisation, no hand-discharged obligation); (D4) the month tables agree: both arms of '
-               'year_month_to_doy have offsets equal to the prefix sums of their lengths, differ exactly by 29 February, and MONTH_DAYS in days_to_date is '
-               'the leap arm rotated to start in March; the cycle constants 1461 / 36524 / 146097 are those implied by the moduli 4 / 100 / 400 of '
-               'is_leap_year; MIN_DATE / MAX_DATE are the dates of i32::MIN / i32::MAX and LEAPOCH is the day of 2000-03-01 (constant propagation through the '
+               'arithmetic at MIN_DATE / MAX_DATE (div/mod linearisation, no hand-discharged obligation); (D4) year_month_to_doy evaluated for each month gives offsets equal to '
+               'the prefix sums of the month lengths in both the common and the leap case, which differ exactly by 29 February; MIN_DATE / MAX_DATE are the '
+               'dates of i32::MIN / i32::MAX, 2000-03-01 is day 730_179 and 0001-01-01 is day 0 (constant propagation through the '
                'kernels). (B) date_to_days IS the proleptic Gregorian day count: in each of the 802 residue classes of the 400-year cycle (year = 400k + j AD, -(400k + j) BC, k symbolic, plus the years -1 and -2) the accepted days of every month are exactly 1..=length (leap by the astronomical year), the day number is base + days-before-month + day - 1 with one base per year, consecutive years are 365/366 days apart in every cycle and across the missing year 0, and 0001-01-01 is day 0 -- so it is strictly increasing by one from each valid date to the next, hence injective (oracle: the calendar definition, not the leap functions of the code). (I) days_to_date is its inverse: for every i32 day number n -- analysed in the 400 March-based years of the cycle x (all later cycles with a symbolic cycle index, the six cycles around the era boundary one by one, all earlier cycles symbolic, and the two partial cycles at the ends of the i32 range), with the day inside the year symbolic -- date_to_days accepts the date days_to_date returns and gives back exactly n (affine identity on every path; the classes cover 2^32 day numbers exactly once). With (B) the two kernels are mutually inverse bijections between the valid dates and the i32 day numbers.')
 META = {
-    'technique': 'static analysis: MIR abstract interpretation (totality, ranges, guard/message consistency), value identity at kernel call sites, table agreement by constant propagation',
-    'note': 'trusted: rustc MIR, vf/models.py. The numerical bijection (round trip of the two kernels for every day) is not decided by this check.',
+    'technique': 'static analysis: MIR abstract interpretation (totality, ranges, guard/message consistency), value identity at kernel call sites, constant propagation; '
+                 'residue-class case analysis of both day-number kernels over the 400-year cycle (symbolic cycle index) against the Gregorian rule, and their composition per March-year class',
+    'note': 'trusted: rustc MIR, vf/models.py; Python oracle of the Gregorian rule (vf/calendar.py daynum) for the year-class rules B and I',
 }
 
 D2D = 'util::date::convert::days_to_date'
@@ -159,28 +159,7 @@ def check(ctx):
              sample={'common': {m: (v[0][0], v[1][0]) for m, v in (common or {}).items()}})
     if not ok_tab:
         ctx.finding('C01:TABLE|' + YMD, 'F5 table agreement', I.bodies[YMD]['span'], f'month table of year_month_to_doy is inconsistent: {table}')
-    md = I.call_body(D.St(), D2D + '::promoted[0]', [], ('const', 'MONTH_DAYS')) if (D2D + '::promoted[0]') in I.bodies else []
-    arr = None
-    if md:
-        st_, v = md[0]
-        tgt = I.read_resolved(st_, ('L',) + v[1]) if v[0] == 'r' else v
-        if tgt is not None and tgt[0] == 'a':
-            arr = [D.get_iv(st_, e[1])[0] for e in tgt[1]]
-    want = None
-    if leap:
-        lens = [leap[m][1][0] for m in range(1, 13)]
-        want = lens[2:] + lens[:2]
-    good = arr is not None and arr == want
-    ctx.rule('C01-D4 MONTH_DAYS = leap arm rotated to March', 1, 1 if good else 0, sample={'MONTH_DAYS': arr})
-    if not good:
-        ctx.finding('C01:TABLE|MONTH_DAYS', 'F5 table agreement', I.bodies[D2D]['span'], f'MONTH_DAYS in days_to_date is {arr}, the month table implies {want}')
-    # cycle constants implied by the leap rule moduli
-    lc = body_consts(facts, LEAP)
     dc = body_consts(facts, D2D)
-    good = {4, 100, 400} <= lc and {365 * 4 + 1, 365 * 100 + 24, 365 * 400 + 97, 365} <= dc
-    ctx.rule('C01-D4 cycle constants follow from the leap rule', 1, 1 if good else 0, sample={'is_leap_year_moduli': sorted(c for c in lc if c in (4, 100, 400))})
-    if not good:
-        ctx.finding('C01:CYCLE', 'F5 constant agreement', I.bodies[D2D]['span'], f'leap moduli {sorted(lc)} / cycle constants in days_to_date {sorted(c for c in dc if c > 300)} disagree with 1461/36524/146097')
     # range ends and LEAPOCH by constant propagation through the kernels
     anchors = [(DTD, '[MAX_DATE]', [5_879_611, 7, 12], ['i32', 'u32', 'u32'], (1 << 31) - 1), (DTD, '[MIN_DATE]', [-5_879_611, 6, 23], ['i32', 'u32', 'u32'], -(1 << 31)),
                (DTD, '[LEAPOCH 2000-03-01]', [2000, 3, 1], ['i32', 'u32', 'u32'], 730_179), (DTD, '[0001-01-01]', [1, 1, 1], ['i32', 'u32', 'u32'], 0)]
@@ -190,10 +169,6 @@ def check(ctx):
         ctx.rule('C01-D4 constants agree with the kernels (constant propagation)', 1, 1 if good else 0, sample={'anchor': tag, 'expected_day': want})
         if not good:
             ctx.finding('C01:ANCHOR-CONST|' + tag, 'constant propagation', None, f'date_to_days{tuple(vals)} does not fold to {want}')
-    good = 730_179 in dc
-    ctx.rule('C01-D4 LEAPOCH constant', 1, 1 if good else 0)
-    if not good:
-        ctx.finding('C01:LEAPOCH', 'F5 constant agreement', None, 'days_to_date does not use 730_179 (day number of 2000-03-01) as its epoch')
     for tag, day, want in (('[i32::MAX]', (1 << 31) - 1, (5_879_611, 7, 12)), ('[i32::MIN]', -(1 << 31), (-5_879_611, 6, 23)), ('[0]', 0, (1, 1, 1))):
         res = const_call(N, D2D, D2D + ' ' + tag, [day], ['i32'])
         got = [tuple(D.get_iv(st, x[1]) for x in rv[1]) for st, rv in res]
